@@ -2779,10 +2779,11 @@ func (mgr *Manager) tagUpdateEventWorker() {
 			ticker.Stop()
 			return
 		case <-ticker.C:
-			if len(mgr.updatedTagsToSignal) == 0 {
-				continue
-			}
 			mgr.jobs <- func() {
+				// updatedTagsToSignal may only be accessed from the manager goroutine
+				if len(mgr.updatedTagsToSignal) == 0 {
+					return
+				}
 				infos := make([]*TagInfo, 0, len(mgr.updatedTagsToSignal))
 				for tn := range mgr.updatedTagsToSignal {
 					delete(mgr.updatedTagsToSignal, tn)
